@@ -105,6 +105,9 @@ func (p *peekingReader) Read(d []byte) (int, error) {
 }
 
 func (p *peekingReader) Close() error {
+	if p == nil {
+		return nil
+	}
 	if p.underlying == nil {
 		return errors.New("reader already closed")
 	}
